@@ -114,6 +114,14 @@ def _gen_file(rnd):
     ids = rnd.sample([3, 18, 100, 7], ns)
     meta = {i: (round(50 + i / 7.0, 3), round(-10.5 + i / 3.0, 3), float(10 * i)) for i in ids}
     use_lat, use_lon = rnd.random() < 0.8, rnd.random() < 0.8
+    # variants: "jitter" = the rows of one id spell its coordinates slightly differently (below the reader's 1e-4 conflict tolerance);
+    #           "noid"   = no location/id column, sites told apart by their coordinates, two of them closer than 1e-5
+    variant = rnd.choice(["plain", "plain", "jitter", "noid"])
+    if variant == "noid":
+        use_lat = True
+        if ns >= 2:
+            a, b = ids[0], ids[1]
+            meta[b] = (meta[a][0] + 2e-6, meta[a][1], meta[a][2])
     elev_col = rnd.choice(["altitude", "elev", None])
     data_cols = []
     if rnd.random() < 0.85: data_cols.append("obs")
@@ -128,7 +136,8 @@ def _gen_file(rnd):
         data_cols.append("obs")
     coord_cols = {"date": ["date"], "date+hour": ["date", "hour"], "unixtime": ["unixtime"]}[time_style]
     if lead_col: coord_cols.append(lead_col)
-    coord_cols.append(id_col)
+    if variant != "noid":
+        coord_cols.append(id_col)
     if use_lat: coord_cols.append("lat")
     if use_lon: coord_cols.append("lon")
     if elev_col: coord_cols.append(elev_col)
@@ -157,8 +166,9 @@ def _gen_file(rnd):
                     elif h == "unixtime": row.append(str(unix[ti]))
                     elif h in ("leadtime", "offset"): row.append("%g" % leads[li])
                     elif h in ("location", "id"): row.append(str(s))
-                    elif h == "lat": row.append("%g" % meta[s][0])
-                    elif h == "lon": row.append("%g" % meta[s][1])
+                    elif h == "lat" and variant == "noid": row.append("%.6f" % meta[s][0])
+                    elif h == "lat": row.append("%g" % meta[s][0] if variant == "plain" else "%.5f" % (meta[s][0] + rnd.choice([0.0, 3e-5, -4e-5])))
+                    elif h == "lon": row.append("%g" % meta[s][1] if variant != "jitter" else "%.5f" % (meta[s][1] + rnd.choice([0.0, 3e-5, -4e-5])))
                     elif h in ("altitude", "elev"): row.append("%g" % meta[s][2])
                     else: row.append(vals[h])
                 rows.append(row)
@@ -182,7 +192,9 @@ def _gen_file(rnd):
     text = "\n".join(lines) + "\n"
     exp = dict(cells=cells, unix=sorted(set(k[0] for k in cells)), leads=sorted(set(k[1] for k in cells)), ids=sorted(set(k[2] for k in cells)),
                meta=meta, use_lat=use_lat, use_lon=use_lon, elev=elev_col is not None, data_cols=data_cols, thr=thr, qs=qs, mem=mem, others=others,
-               varname=varname, units=units, x0=x0, x1=x1)
+               varname=varname, units=units, x0=x0, x1=x1, variant=variant)
+    if variant == "noid":
+        exp["meta"] = {i: (float("%.6f" % m[0]), m[1], m[2]) for i, m in meta.items()}
     return text, exp
 
 
@@ -208,14 +220,31 @@ def _check_file(text, exp, path):
     if [float(t) for t in inp.leadtimes] != exp["leads"]:
         return "leadtimes %r, want %r" % (list(inp.leadtimes), exp["leads"])
     got_ids = [float(l.id) for l in inp.locations]
-    if sorted(got_ids) != [float(i) for i in exp["ids"]]:
-        return "location ids %r, want %r" % (got_ids, exp["ids"])
-    for l in inp.locations:
-        lat, lon, elev = exp["meta"][int(l.id)]
-        want = (lat if exp["use_lat"] else 0.0, lon if exp["use_lon"] else 0.0, elev if exp["elev"] else 0.0)
-        if not (_same(l.lat, want[0]) and _same(l.lon, want[1]) and _same(l.elev, want[2])):
-            return "metadata of location %r: (%r,%r,%r), want %r" % (l.id, l.lat, l.lon, l.elev, want)
-    spos = {float(l.id): i for i, l in enumerate(inp.locations)}
+    tol = 1.0001e-4 if exp.get("variant") == "jitter" else 0.0
+
+    def near(a, b):
+        return _same(a, b) or abs(a - b) <= tol
+    if exp.get("variant") == "noid":
+        # no id column: one location per distinct coordinate triple, each with an id of its own
+        if len(got_ids) != len(exp["ids"]) or len(set(got_ids)) != len(got_ids) or any(i != i for i in got_ids):
+            return "locations without an id column: ids %r for %d distinct sites" % (got_ids, len(exp["ids"]))
+        spos = {}
+        for sname in exp["ids"]:
+            lat, lon, elev = exp["meta"][sname]
+            want = (lat, lon if exp["use_lon"] else 0.0, elev if exp["elev"] else 0.0)
+            hits = [i for i, l in enumerate(inp.locations) if _same(l.lat, want[0]) and _same(l.lon, want[1]) and _same(l.elev, want[2])]
+            if len(hits) != 1:
+                return "site %r at %r: %d matching locations among %r" % (sname, want, len(hits), [(l.lat, l.lon, l.elev) for l in inp.locations])
+            spos[float(sname)] = hits[0]
+    else:
+        if sorted(got_ids) != [float(i) for i in exp["ids"]]:
+            return "location ids %r, want %r" % (got_ids, exp["ids"])
+        for l in inp.locations:
+            lat, lon, elev = exp["meta"][int(l.id)]
+            want = (lat if exp["use_lat"] else 0.0, lon if exp["use_lon"] else 0.0, elev if exp["elev"] else 0.0)
+            if not (near(l.lat, want[0]) and near(l.lon, want[1]) and _same(l.elev, want[2])):
+                return "metadata of location %r: (%r,%r,%r), want %r" % (l.id, l.lat, l.lon, l.elev, want)
+        spos = {float(l.id): i for i, l in enumerate(inp.locations)}
 
     def cell(col, t, l, s):
         v = exp["cells"].get((t, l, s))
